@@ -230,6 +230,27 @@ def run_case(c) -> tuple[bool, list[str]]:
         nodes2 = walk(out2)
         if len(nodes2) != len(nodes) or Counter(node_den(x) for x in nodes2) != before:
             raise Violation("deduplicate_nodes is not idempotent", "dedup-idempotent")
+        # the graph lives on: a later in-place change makes two of the surviving nodes equal (same outputs, same inputs, now the
+        # same payload) -- de-duplicating again must merge them, whatever the first pass remembered about them
+        by_shape: dict = {}
+        for x in nodes2:
+            k2 = (tuple(x.outputs), tuple(sorted((k, id(v.parent), v.name) for k, v in x.inputs.items())))
+            by_shape.setdefault(k2, []).append(x)
+        twins = next((v for v in by_shape.values() if len({repr(_freeze(y.payload)) for y in v}) >= 2), None)
+        if twins is not None:
+            twins[1].payload = twins[0].payload
+            den3 = set(_sinks_den(out2))
+            out3 = _guard("deduplicate_nodes (after an in-place change)", lambda: deduplicate_nodes(out2))
+            if set(_sinks_den(out3)) != den3:
+                raise Violation("deduplicate_nodes (after an in-place change of a payload) changed the set of sink denotations", "dedup-den")
+            seen3 = {}
+            for x in walk(out3):
+                key = (_freeze(x.payload), tuple(x.outputs), tuple(sorted((k, id(v.parent), v.name) for k, v in x.inputs.items())))
+                if key in seen3:
+                    raise Violation(f"two nodes were made equal in place after a first de-duplication; the next de-duplication leaves both "
+                                    f"({seen3[key].name!r} and {x.name!r})", "dedup-leaves-duplicate")
+                seen3[key] = x
+            classes.append("dedup_again_after_in_place_change")
         real_dup = len(nodes) < n
         if real_dup:
             classes.append("real_duplicate")
